@@ -363,6 +363,94 @@ func runExtended(x *runCtx, base setupPair, ctx int, choices []byte) outcome {
 	})
 }
 
+// extRel checks the defining relation of one extended OT run on the actual outputs.
+func extRel(resS *ot.ExtendedOTSendResult, resR *ot.ExtendedOTReceiveResult, choices []byte) string {
+	batch := 8 * len(choices)
+	V0 := priv(resS, "_V0").Interface().([]pad)
+	V1 := priv(resS, "_V1").Interface().([]pad)
+	VC := priv(resR, "_VChoices").Interface().([]pad)
+	if len(V0) != batch || len(V1) != batch || len(VC) != batch {
+		return fmt.Sprintf("lengths %d/%d/%d for batch %d", len(V0), len(V1), len(VC), batch)
+	}
+	for j := 0; j < batch; j++ {
+		want, other := V0[j], V1[j]
+		if bit(j, choices) == 1 {
+			want, other = other, want
+		}
+		if VC[j] != want || VC[j] == other {
+			return fmt.Sprintf("element %d of %d: c=%d", j, batch, bit(j, choices))
+		}
+	}
+	return ""
+}
+
+// runExtendedHistory: histories on ONE setup in which the two parties do not move in lockstep.  Every
+// execution is identified by its own transcript context, so none of these may disturb an honest run:
+//
+//	abandoned - the Receiver prepares an execution whose message is never delivered, then both run normally;
+//	swapped   - two executions are prepared as A, B by the Receiver and processed as B, A by the Sender;
+//	reloaded  - after one run both setups go through MarshalBinary/UnmarshalBinary, then both run again.
+func runExtendedHistory(x *runCtx, variant string, ctx int, choices []byte) outcome {
+	return guard(func(o *outcome) {
+		var p setupPair
+		if so := runCorreSetup(x, 1000+ctx, &p); !so.Finished || !so.RelOK {
+			fail("S", fmt.Errorf("setup for the history failed: %+v", so))
+		}
+		batch := 8 * len(choices)
+		one := func(pp setupPair, c int) {
+			h := ctxHash("extended-history", c)
+			x.useR()
+			msg, resR := ot.ExtendedOTReceive(h.Clone(), pp.R, append([]byte{}, choices...))
+			x.useS()
+			resS, err := ot.ExtendedOTSend(h.Clone(), pp.S, batch, msg)
+			if err != nil {
+				fail("S", fmt.Errorf("honest run after history %q: %w", variant, err))
+			}
+			if r := extRel(resS, resR, choices); r != "" {
+				o.Rel = "extended OT after history " + variant + ": " + r
+				panic(stopRun{})
+			}
+		}
+		o.RelOK = true
+		defer func() {
+			if o.Rel != "" {
+				o.RelOK = false
+			}
+		}()
+		switch variant {
+		case "abandoned":
+			x.useR()
+			_, _ = ot.ExtendedOTReceive(ctxHash("extended-history", 100*ctx+1).Clone(), p.R, append([]byte{}, choices...))
+			one(p, 100*ctx+2)
+		case "swapped":
+			hA, hB := ctxHash("extended-history", 100*ctx+3), ctxHash("extended-history", 100*ctx+4)
+			x.useR()
+			mA, rA := ot.ExtendedOTReceive(hA.Clone(), p.R, append([]byte{}, choices...))
+			mB, rB := ot.ExtendedOTReceive(hB.Clone(), p.R, append([]byte{}, choices...))
+			x.useS()
+			sB, errB := ot.ExtendedOTSend(hB.Clone(), p.S, batch, mB)
+			sA, errA := ot.ExtendedOTSend(hA.Clone(), p.S, batch, mA)
+			if errA != nil || errB != nil {
+				fail("S", fmt.Errorf("two executions prepared as A, B and processed as B, A: %v / %v", errA, errB))
+			}
+			if r := extRel(sA, rA, choices) + extRel(sB, rB, choices); r != "" {
+				o.Rel = "extended OT, executions processed out of order: " + r
+			}
+		case "reloaded":
+			one(p, 100*ctx+5)
+			bs, errS := p.S.MarshalBinary()
+			br, errR := p.R.MarshalBinary()
+			s2, r2 := new(ot.CorreOTSendSetup), new(ot.CorreOTReceiveSetup)
+			if errS != nil || errR != nil || s2.UnmarshalBinary(bs) != nil || r2.UnmarshalBinary(br) != nil {
+				fail("S", fmt.Errorf("setup does not round-trip through MarshalBinary/UnmarshalBinary"))
+			}
+			one(setupPair{s2, p.R}, 100*ctx+6) // only the Sender reloaded
+			one(setupPair{s2, r2}, 100*ctx+7)  // both reloaded
+		}
+		o.Finished = true
+	})
+}
+
 // ---- layer 5: additive OT -----------------------------------------------------------------------------
 
 func runAdditive(x *runCtx, base setupPair, ctx int, choices []byte, a0, a1 *big.Int) outcome {
